@@ -967,13 +967,16 @@ func (h *NtfnsHandler) asyncImport(walletId string) (finish bool, err error) {
 					return err
 				}
 				if rec == nil {
-					logging.CPrint(logging.ERROR, "unexpected error, tx is not relevant",
+					// The address index was read before the block at this height was
+					// replaced by a reorganisation: the location now holds another
+					// transaction. Scan this range again.
+					logging.CPrint(logging.WARN, "tx is not relevant, maybe chain forks",
 						logging.LogFormat{
-							"tx":     rec.Hash.String(),
+							"tx":     msg.TxHash().String(),
 							"block":  blockMeta.Hash.String(),
 							"height": blockMeta.Height,
 						})
-					return fmt.Errorf("unexpected error: tx is not relevant")
+					return ErrImportingContinuable
 				}
 				rec.TxLoc = txloc
 
